@@ -30,6 +30,7 @@ DT = "sharepoint2text/parsing/extractors/data_types.py"
 PPTX = "sharepoint2text/parsing/extractors/ms_modern/pptx_extractor.py"
 XLSX = "sharepoint2text/parsing/extractors/ms_modern/xlsx_extractor.py"
 XLS = "sharepoint2text/parsing/extractors/ms_legacy/xls_extractor.py"
+XLS_ROWS = "rows"
 
 I, S, B = z3.IntSort(), z3.StringSort(), z3.BoolSort()
 PYVAL = ext_sort("PyVal")       # an arbitrary Python value stored in a cell
@@ -169,6 +170,31 @@ def JOIN(sep, s: VSeq):
     return f(sep, s.length, lam)
 
 
+def loop_vars(rel, qual, repo=None):
+    """Names used by the loops of a function, read from the real AST so that renaming a local does not invalidate the
+    contract: per for-loop (source order) {target, iter_base (receiver of the iterated call), built (receiver of the
+    .append() in the loop's own body)}."""
+    m = loader.module(rel, repo)
+    fnode = m.functions.get(qual)
+    out = []
+    if fnode is None:
+        return out
+    loops = [n for n in ast.walk(fnode) if isinstance(n, (ast.For, ast.While))]
+    loops.sort(key=lambda n: (n.lineno, n.col_offset))
+    for lp in loops:
+        d = {"target": lp.target.id if isinstance(lp, ast.For) and isinstance(lp.target, ast.Name) else None, "iter_base": None, "built": None}
+        if isinstance(lp, ast.For):
+            it = lp.iter
+            if isinstance(it, ast.Call) and isinstance(it.func, ast.Attribute) and isinstance(it.func.value, ast.Name):
+                d["iter_base"] = it.func.value.id
+        for stmt in lp.body:
+            if isinstance(stmt, ast.Expr) and isinstance(stmt.value, ast.Call) and isinstance(stmt.value.func, ast.Attribute) \
+                    and stmt.value.func.attr == "append" and isinstance(stmt.value.func.value, ast.Name):
+                d["built"] = stmt.value.func.value.id
+        out.append(d)
+    return out
+
+
 # ===================================================================== (a) ==
 CELLV = z3.Function("src_cell", I, I, PYVAL)
 ROWLEN = z3.Function("src_rowlen", I, I)
@@ -269,6 +295,9 @@ def install_dict_model(reg):
 
 
 def dim_contracts(reg):
+    global XLS_ROWS
+    lv = loop_vars(DT, "XlsSheet.get_table")
+    XLS_ROWS = (lv[0]["built"] if lv and lv[0]["built"] else "rows")
     out = []
     for cls in table_classes():
         if cls == "XlsSheet":
@@ -288,8 +317,8 @@ def dim_contracts(reg):
         target=f"{DT}::XlsSheet.get_table", params=[("self", p_obj("XlsSheet", {"data": p_records()}))],
         returns=lambda c: xls_table_spec(),
         raises=[],
-        loops={0: LoopSpec(inv=lambda lc: seq_eq(lc.ex.as_seq(lc.st, lc["rows"]), take(xls_table_spec(), lc.i + 1)),
-                           havoc=(("rows", ("list", ("list", ("ext", "PyVal")))),), label="records")},
+        loops={0: LoopSpec(inv=lambda lc: seq_eq(lc.ex.as_seq(lc.st, lc[XLS_ROWS]), take(xls_table_spec(), lc.i + 1)),
+                           havoc=((XLS_ROWS, ("list", ("list", ("ext", "PyVal")))),), label="records")},
         note="table of an XLS sheet: keys of the first record, then the records' values in that key order"))
     out.append(FnContract(
         target=f"{DT}::XlsSheet.get_dim", params=[("self", p_obj("XlsSheet", {"data": p_records()}))],
@@ -517,18 +546,22 @@ def pptx_contracts(reg):
             return z3.BoolVal(False)
         return z3.And(is_frame, seq_eq(got, grid(tbl)))
 
+    lv = loop_vars(PPTX, "_extract_table_from_graphic_frame")
+    lv = lv if len(lv) == 2 and all(d["built"] and d["iter_base"] for d in lv) else [{"built": "table_data", "iter_base": "tbl"}, {"built": "row_data", "iter_base": "tr"}]
+    outer, inner = lv
+
     def inv_rows(lc):
-        return seq_eq(lc.ex.as_seq(lc.st, lc["table_data"]), take(grid(lc["tbl"].t), lc.i))
+        return seq_eq(lc.ex.as_seq(lc.st, lc[outer["built"]]), take(grid(lc[outer["iter_base"]].t), lc.i))
 
     def inv_cells(lc):
-        return seq_eq(lc.ex.as_seq(lc.st, lc["row_data"]), take(row_spec(lc["tr"].t), lc.i))
+        return seq_eq(lc.ex.as_seq(lc.st, lc[inner["built"]]), take(row_spec(lc[inner["iter_base"]].t), lc.i))
 
     return [FnContract(
         target=f"{PPTX}::_extract_table_from_graphic_frame", params=[("elem", p_ext("Elem"))],
         ensures=[("none-iff-not-a-table-frame-else-the-grid-of-direct-rows-and-cells", post)],
         raises=[],
-        loops={0: LoopSpec(inv=inv_rows, havoc=(("table_data", ("list", ("list", "str"))),), label="rows"),
-               1: LoopSpec(inv=inv_cells, havoc=(("row_data", ("list", "str")),), label="cells")},
+        loops={0: LoopSpec(inv=inv_rows, havoc=((outer["built"], ("list", ("list", "str"))),), label="rows"),
+               1: LoopSpec(inv=inv_cells, havoc=((inner["built"], ("list", "str")),), label="cells")},
         note="symbolic tree shape: every number of rows, every (ragged) number of cells per row")]
 
 
